@@ -4,6 +4,7 @@ CONSTANTS
   Files = {"A", "b", "L1", "L2", "D/A", "D/b"}
   Dirs = {"D"}
   InD = {"D/A", "D/b"}
+  InE = {}
   Total = 6
   MaxLen = 9
   MaxTag = 3
